@@ -115,7 +115,7 @@ def run_corpus(ctx, kind, cfg, src, blds, scripts, extras_needed, cxx17_needed=f
                 return
 
 def run(ctx):
-    ctx.lean(['AmcVerif.Props.C16'])
+    ctx.lean(['AmcVerif.Props.C16'], extra_modules=['AmcVerif.Bridge.MemAlgoBridge'])
     blds = builds(ctx.tier)
     rng = random.Random(20240916)       # fixed-seed corpus, as the property states
     nvec = 6 if ctx.tier == 'quick' else 20
